@@ -83,4 +83,47 @@ def search(ctx):
     c2 = Ctx(ctx.pid, 'thorough', ctx.seed + 1, random.Random(ctx.seed + 99), ctx.drivers, True); c2.n = lambda q, t: q * 4
     return [v for v in run(c2)['violations'] if v[1]]
 
-def replay(ctx, rp): return generic_replay(ctx, rp, None)
+def entry_bounds(data):
+    b, o = [0], 0
+    while o + 4 <= len(data):
+        n = int.from_bytes(data[o:o + 4], 'little')
+        if o + 4 + n > len(data): break
+        o += 4 + n; b.append(o)
+    return b
+
+def oracle_for(lines):
+    """rebuild the oracle of a kept (full read, cut read) pair from the lines themselves"""
+    full, line = lines; t = line.split(' ')
+    unhx = lambda h: bytes.fromhex(h) if h != '-' else b''
+    data = unhx(full.split(' ')[3]); bounds = entry_bounds(data)
+    entries = [data[a:b] for a, b in zip(bounds, bounds[1:])]
+    if t[0] in ('print', 'sorted'):
+        c = len(unhx(t[3])); inside = len([b for b in bounds[1:] if b <= c])
+        nev = len([e for e in entries[:inside] if is_event(e)]); on_boundary = c in bounds; mode = t[0]
+        def oracle(outs):
+            f, p = outs[0].split(' '), outs[1].split(' ')
+            ls = unhx(f[1]).split(b'\n')[:-1]
+            got = unhx(p[1]) if len(p) > 1 else b''
+            want = b''.join(l + b'\n' for l in ls[:nev])
+            if mode == 'sorted': want = b''.join(l + b'\n' for l in sorted(ls[:nev], key=lambda l: int(l.split(b'|')[0].split(b' ')[-1])))
+            if got != want: return 'prefix does not print exactly the events wholly inside it'
+            if on_boundary and p[0] != 'ok': return 'cut on an entry boundary but an error is reported'
+            if not on_boundary and not p[0].startswith('err:'): return 'cut inside an entry but no error is reported'
+            return True
+        return oracle
+    pieces = [unhx(x) for x in t[3:]]; cuts, o = [], 0
+    for pc in pieces[:-1]: o += len(pc); cuts.append(o)
+    total = len(data)
+    def oracle2(outs):
+        f = outs[0].split(' ')
+        parts = [x.split('=') for x in outs[1].split(' ')]
+        text = b''.join(bytes.fromhex(p[1]) for p in parts if len(p) == 3 and p[1] != '-')
+        if text.hex() != (f[1] if f[1] != '-' else ''): return 'resumed reading prints different text than an uninterrupted read'
+        for (st, _, pos), c in zip(parts, cuts + [total]):
+            want = max(b for b in bounds if b <= c)
+            if int(pos) != want: return 'stream position after the attempt is %s, expected the start of the incomplete entry %d' % (pos, want)
+            if (c in bounds) != (st == 'ok'): return 'status %s at cut %d' % (st, c)
+        return True
+    return oracle2
+
+def replay(ctx, rp): return generic_replay(ctx, rp, oracle_for)
